@@ -9,13 +9,21 @@ package c04
 import (
 	"fmt"
 	"math/big"
+	"strings"
 
+	sdkmath "cosmossdk.io/math"
+	clienttx "github.com/cosmos/cosmos-sdk/client/tx"
 	sdk "github.com/cosmos/cosmos-sdk/types"
+	"github.com/cosmos/cosmos-sdk/types/tx/signing"
+	authsigning "github.com/cosmos/cosmos-sdk/x/auth/signing"
 	"github.com/ethereum/go-ethereum/common"
 
+	"github.com/functionx/fx-core/v8/testutil/helpers"
+	fxtypes "github.com/functionx/fx-core/v8/types"
 	crosschaintypes "github.com/functionx/fx-core/v8/x/crosschain/types"
 
 	"fxverif/harness/evmx"
+	"fxverif/harness/hx"
 )
 
 func (r *run) pre(u int, value *big.Int, data []byte) string {
@@ -40,4 +48,65 @@ func (r *run) pre(u int, value *big.Int, data []byte) string {
 		}
 		return nil
 	})
+}
+
+// Entry points of the Cosmos messages (round 4): half of the user messages (MsgSendToExternal, MsgCancelSendToExternal,
+// MsgIncreaseBridgeFee, MsgBridgeCall, MsgConvertCoin, MsgConvertDenom) go through the message router directly, the other
+// half are SIGNED TRANSACTIONS (SIGN_MODE_DIRECT, the user's key; a separate rich account pays the fee so that the user's
+// FX — token group 0 of the model — moves only as the message says) delivered through baseapp.runTx in finalize mode: tx
+// decoding, the full ante handler chain (signature verification against the signer the message names, sequence, fee
+// deduction, gas), ValidateBasic, the message router, and the commit of the message's cache context only on success — what
+// FinalizeBlock does per transaction.  The op line is the same for both.
+func (r *run) msg(u int, m sdk.Msg) string {
+	w := r.w
+	if r.payer == nil || r.rng.Intn(2) == 0 {
+		r.out.Count("entry:msg:router")
+		return w.Msg(m)
+	}
+	r.out.Count("entry:msg:signed-tx-runTx")
+	app := w.S.App
+	ctx := w.S.Ctx
+	txc := app.GetTxConfig()
+	txb := txc.NewTxBuilder()
+	if err := txb.SetMsgs(m); err != nil {
+		return "err:" + err.Error()
+	}
+	const gas = 5_000_000
+	txb.SetGasLimit(gas)
+	txb.SetFeeAmount(sdk.NewCoins(sdk.NewCoin(fxtypes.DefaultDenom, sdkmath.NewInt(4e12).MulRaw(gas))))
+	txb.SetFeePayer(r.payer.AccAddress())
+	signers := []*helpers.Signer{w.Users[u], r.payer}
+	mode := signing.SignMode_SIGN_MODE_DIRECT
+	type sd struct{ num, seq uint64 }
+	sds := make([]sd, len(signers))
+	sigs := make([]signing.SignatureV2, len(signers))
+	for i, sg := range signers {
+		if acc := app.AccountKeeper.GetAccount(ctx, sg.AccAddress()); acc != nil {
+			sds[i] = sd{acc.GetAccountNumber(), acc.GetSequence()}
+		}
+		sigs[i] = signing.SignatureV2{PubKey: sg.PrivKey().PubKey(), Data: &signing.SingleSignatureData{SignMode: mode}, Sequence: sds[i].seq}
+	}
+	if err := txb.SetSignatures(sigs...); err != nil {
+		return "err:" + err.Error()
+	}
+	for i, sg := range signers {
+		data := authsigning.SignerData{Address: sg.AccAddress().String(), ChainID: ctx.ChainID(), AccountNumber: sds[i].num, Sequence: sds[i].seq, PubKey: sg.PrivKey().PubKey()}
+		sig, err := clienttx.SignWithPrivKey(ctx, mode, data, txb, sg.PrivKey(), txc, sds[i].seq)
+		if err != nil {
+			return "err:" + err.Error()
+		}
+		sigs[i] = sig
+	}
+	if err := txb.SetSignatures(sigs...); err != nil {
+		return "err:" + err.Error()
+	}
+	w.Height++
+	var derr error
+	res := hx.Try(func() error { _, _, derr = app.SimDeliver(txc.TxEncoder(), txb.GetTx()); return derr })
+	if res != "ok" && (strings.Contains(res, "signature verification failed") || strings.Contains(res, "insufficient fee") ||
+		strings.Contains(res, "account sequence mismatch") || strings.Contains(res, "out of gas")) {
+		// the harness' own transaction was refused by the ante handler: a defect of the harness, not an outcome of the operation
+		r.out.Violate("harness: signed transaction refused before its message ran: " + res)
+	}
+	return res
 }
